@@ -3,6 +3,7 @@ package sim
 import (
 	cvmtypes "github.com/certikfoundation/shentu/x/cvm/types"
 	authtypes "github.com/cosmos/cosmos-sdk/x/auth/types"
+	banktypes "github.com/cosmos/cosmos-sdk/x/bank/types"
 	"time"
 
 	sdk "github.com/cosmos/cosmos-sdk/types"
@@ -150,8 +151,13 @@ func ShieldProfile(seed int64, out *Recorder, nOps int) *Chain {
 			from := r3.Intn(cfg.NAcc)
 			ma := authtypes.NewModuleAddress("shield")
 			value := uint64(1 + r3.Intn(5000))
-			m := cvmtypes.NewMsgCall(c.Accts[from].Addr.String(), ma.String(), value, nil)
-			c.DoGas(from, 3000000, DefaultFee, []D{{"t": "cvm.call", "caller": Hex(c.Accts[from].Addr), "callee": Hex(ma), "kind": "none", "value": value, "data": "", "expect": "any"}}, nil, &m)
+			if r3.Intn(2) == 0 { // … or by a plain bank send, which the bank refuses (blocked recipient)
+				c.Do(from, []D{{"t": "bank.send", "from": Hex(c.Accts[from].Addr), "to": Hex(ma), "amt": CoinsJ(c.Coins(int64(value), Bond)), "toKind": ""}},
+					banktypes.NewMsgSend(c.Accts[from].Addr, ma, c.Coins(int64(value), Bond)))
+			} else {
+				m := cvmtypes.NewMsgCall(c.Accts[from].Addr.String(), ma.String(), value, nil)
+				c.DoGas(from, 3000000, DefaultFee, []D{{"t": "cvm.call", "caller": Hex(c.Accts[from].Addr), "callee": Hex(ma), "kind": "none", "value": value, "data": "", "expect": "any"}}, nil, &m)
+			}
 		}
 		if r4 := newRng(seed*137 + int64(i)); r4.Intn(60) == 0 {
 			switch r4.Intn(3) {
